@@ -820,5 +820,659 @@ func init() {
 		}
 		g.wasValidAt()
 		g.listKeyIDs()
+		g.checkKeys()
+		g.directFetch()
+		g.perspectiveFetch()
 	})
+}
+
+// ===================== CheckKeys, DirectKeyFetcher, PerspectiveKeyFetcher =====================
+
+type c12VerifyKeySpec struct {
+	Kid      string
+	Key      []byte // the public key listed
+	SignIdx  int    // index of the key pair that self-signs under (SignName, Kid); -1: no signature
+	SignName string // "" = the document's server name
+	Tamper   bool   // signature over other content
+}
+
+type c12OldKeySpec struct {
+	Kid string
+	Key []byte
+	Exp uint64
+}
+
+type c12NotarySig struct {
+	Name   string
+	Kid    string
+	KeyIdx int
+	Tamper bool
+}
+
+type c12DocSpec struct {
+	Server string
+	VU     uint64
+	Verify []c12VerifyKeySpec
+	Old    []c12OldKeySpec
+	Notary []c12NotarySig
+	Poison bool // a non-object entry inside "signatures": no signature of the document verifies
+}
+
+type c12DocSig struct{ Name, Kid, Key string }
+
+type c12Doc struct {
+	Raw    []byte
+	Fields string // the model's view of the unmarshalled value
+	Keys   gmsl.ServerKeys
+	Sigs   []c12DocSig
+}
+
+func c12BuildDoc(d c12DocSpec) (*c12Doc, error) {
+	b64 := base64.RawStdEncoding.EncodeToString
+	vk := append([]c12VerifyKeySpec{}, d.Verify...)
+	sort.Slice(vk, func(i, j int) bool { return vk[i].Kid < vk[j].Kid })
+	ok := append([]c12OldKeySpec{}, d.Old...)
+	sort.Slice(ok, func(i, j int) bool { return ok[i].Kid < ok[j].Kid })
+	var vparts, oparts []string
+	for _, k := range vk {
+		vparts = append(vparts, fmt.Sprintf(`"%s":{"key":"%s"}`, k.Kid, b64(k.Key)))
+	}
+	for _, k := range ok {
+		oparts = append(oparts, fmt.Sprintf(`"%s":{"expired_ts":%d,"key":"%s"}`, k.Kid, k.Exp, b64(k.Key)))
+	}
+	body := func(vu uint64) string {
+		return fmt.Sprintf(`"old_verify_keys":{%s},"server_name":"%s","valid_until_ts":%d,"verify_keys":{%s}`,
+			strings.Join(oparts, ","), d.Server, vu, strings.Join(vparts, ","))
+	}
+	content := "{" + body(d.VU) + "}"
+	other := "{" + body(d.VU+1) + "}"
+	sigs := map[string]map[string]string{}
+	var names []string
+	var table []c12DocSig
+	add := func(name, kid string, keyIdx int, tamper bool) {
+		msg := content
+		if tamper {
+			msg = other
+		}
+		if _, ok := sigs[name]; !ok {
+			sigs[name] = map[string]string{}
+			names = append(names, name)
+		}
+		if _, dup := sigs[name][kid]; dup {
+			return
+		}
+		sigs[name][kid] = b64(ed25519.Sign(c12Keys[keyIdx].priv, []byte(msg)))
+		if !tamper {
+			table = append(table, c12DocSig{name, kid, c12Keys[keyIdx].hex})
+		}
+	}
+	for _, k := range d.Verify {
+		if k.SignIdx >= 0 {
+			name := k.SignName
+			if name == "" {
+				name = d.Server
+			}
+			add(name, k.Kid, k.SignIdx, k.Tamper)
+		}
+	}
+	for _, n := range d.Notary {
+		add(n.Name, n.Kid, n.KeyIdx, n.Tamper)
+	}
+	sort.Strings(names)
+	var sparts []string
+	for _, n := range names {
+		var kids []string
+		for k := range sigs[n] {
+			kids = append(kids, k)
+		}
+		sort.Strings(kids)
+		var kp []string
+		for _, k := range kids {
+			kp = append(kp, fmt.Sprintf(`"%s":"%s"`, k, sigs[n][k]))
+		}
+		sparts = append(sparts, fmt.Sprintf(`"%s":{%s}`, n, strings.Join(kp, ",")))
+	}
+	if d.Poison {
+		sparts = append(sparts, `"zzz":5`)
+		table = nil
+	}
+	raw := "{" + body(d.VU) + `,"signatures":{` + strings.Join(sparts, ",") + "}}"
+	doc := &c12Doc{Raw: []byte(raw), Sigs: table}
+	if err := json.Unmarshal(doc.Raw, &doc.Keys); err != nil {
+		return nil, err
+	}
+	// the model's view: the fields as the library decoded them
+	var vf, of []string
+	var vkids, okids []string
+	for k := range doc.Keys.VerifyKeys {
+		vkids = append(vkids, string(k))
+	}
+	for k := range doc.Keys.OldVerifyKeys {
+		okids = append(okids, string(k))
+	}
+	sort.Strings(vkids)
+	sort.Strings(okids)
+	for _, k := range vkids {
+		vf = append(vf, fmt.Sprintf(`["%s","%s"]`, k, hex.EncodeToString(doc.Keys.VerifyKeys[gmsl.KeyID(k)].Key)))
+	}
+	for _, k := range okids {
+		o := doc.Keys.OldVerifyKeys[gmsl.KeyID(k)]
+		of = append(of, fmt.Sprintf(`["%s","%s",%d]`, k, hex.EncodeToString(o.Key), uint64(o.ExpiredTS)))
+	}
+	doc.Fields = fmt.Sprintf(`{"s":"%s","vu":%d,"verify":[%s],"old":[%s]}`, doc.Keys.ServerName, uint64(doc.Keys.ValidUntilTS),
+		strings.Join(vf, ","), strings.Join(of, ","))
+	return doc, nil
+}
+
+func c12DocsJSON(docs []*c12Doc) (fields, sig string) {
+	var f, s []string
+	for i, d := range docs {
+		f = append(f, d.Fields)
+		for _, g := range d.Sigs {
+			s = append(s, fmt.Sprintf(`[%d,"%s","%s","%s"]`, i, g.Name, g.Kid, g.Key))
+		}
+	}
+	return "[" + strings.Join(f, ",") + "]", "[" + strings.Join(s, ",") + "]"
+}
+
+func c12ChecksText(ch gmsl.KeyChecks, keys map[gmsl.KeyID]spec.Base64Bytes) string {
+	b := func(x bool) string {
+		if x {
+			return "1"
+		}
+		return "0"
+	}
+	alled := "null"
+	if ch.AllEd25519ChecksOK != nil {
+		alled = b(*ch.AllEd25519ChecksOK)
+	}
+	var kids []string
+	for k := range ch.Ed25519Checks {
+		kids = append(kids, string(k))
+	}
+	sort.Strings(kids)
+	var ents []string
+	for _, k := range kids {
+		e := ch.Ed25519Checks[gmsl.KeyID(k)]
+		ents = append(ents, fmt.Sprintf("%s/%s/%s", k, b(e.ValidEd25519), b(e.MatchingSignature)))
+	}
+	ks := "-"
+	if keys != nil {
+		var kk []string
+		for k := range keys {
+			kk = append(kk, string(k))
+		}
+		sort.Strings(kk)
+		var p []string
+		for _, k := range kk {
+			p = append(p, k+"="+hex.EncodeToString(keys[gmsl.KeyID(k)]))
+		}
+		ks = strings.Join(p, ",")
+	}
+	return fmt.Sprintf("all=%s,name=%s,future=%s,has=%s,alled=%s;%s;keys=%s", b(ch.AllChecksOK), b(ch.MatchingServerName), b(ch.FutureValidUntilTS), b(ch.HasEd25519Key), alled, strings.Join(ents, ","), ks)
+}
+
+// scripted KeyClient
+type c12Client struct {
+	mu      chan struct{}
+	get     map[string]*gmsl.ServerKeys // missing or nil: error
+	lookup  map[string][]gmsl.ServerKeys
+	lookupE map[string]bool // true: answer (possibly empty) exists
+	gets    []string
+	looks   []string
+	asked   string
+	badReq  bool
+}
+
+func (c *c12Client) GetServerKeys(_ context.Context, s spec.ServerName) (gmsl.ServerKeys, error) {
+	c.mu <- struct{}{}
+	c.gets = append(c.gets, string(s))
+	<-c.mu
+	if k := c.get[string(s)]; k != nil {
+		return *k, nil
+	}
+	return gmsl.ServerKeys{}, errors.New("scripted failure")
+}
+
+func (c *c12Client) LookupServerKeys(_ context.Context, s spec.ServerName, reqs map[gmsl.PublicKeyLookupRequest]spec.Timestamp) ([]gmsl.ServerKeys, error) {
+	c.mu <- struct{}{}
+	c.looks = append(c.looks, string(s))
+	c.asked = c12AskedJSON(reqs)
+	if len(reqs) != 1 {
+		c.badReq = true
+	}
+	for r := range reqs {
+		if r.ServerName != s || r.KeyID != "" {
+			c.badReq = true
+		}
+	}
+	<-c.mu
+	if c.lookupE[string(s)] {
+		return c.lookup[string(s)], nil
+	}
+	return nil, errors.New("scripted failure")
+}
+
+type c12FetchScenario struct {
+	Server   string              `json:"server"`
+	Now      int64               `json:"now"`
+	Local    []string            `json:"local"`
+	LocalKey string              `json:"localkey"`
+	Asked    [][]json.RawMessage `json:"asked"`
+	Get      map[string]*int     `json:"get"`
+	Lookup   json.RawMessage     `json:"lookup"`
+	PName    string              `json:"pname"`
+	PKeys    [][]string          `json:"pkeys"`
+}
+
+func c12ParseAsked(rows [][]json.RawMessage) map[gmsl.PublicKeyLookupRequest]spec.Timestamp {
+	m := map[gmsl.PublicKeyLookupRequest]spec.Timestamp{}
+	for _, row := range rows {
+		var s, k string
+		var t uint64
+		_ = json.Unmarshal(row[0], &s)
+		_ = json.Unmarshal(row[1], &k)
+		_ = json.Unmarshal(row[2], &t)
+		m[gmsl.PublicKeyLookupRequest{ServerName: spec.ServerName(s), KeyID: gmsl.KeyID(k)}] = spec.Timestamp(t)
+	}
+	return m
+}
+
+func c12UnmarshalDocs(raws [][]byte) []gmsl.ServerKeys {
+	var r []gmsl.ServerKeys
+	for _, raw := range raws {
+		var k gmsl.ServerKeys
+		_ = json.Unmarshal(raw, &k)
+		r = append(r, k)
+	}
+	return r
+}
+
+func init() {
+	// [scenario {server, now}; raw document]
+	RegisterImpl("C12.check_keys", func(args [][]byte) ([][]byte, []byte) {
+		var sc c12FetchScenario
+		if err := json.Unmarshal(args[0], &sc); err != nil || len(args) < 2 {
+			return args, B("badconfig")
+		}
+		var keys gmsl.ServerKeys
+		if err := json.Unmarshal(args[1], &keys); err != nil {
+			return args, B("unmarshal-error")
+		}
+		ch, ks := gmsl.CheckKeys(spec.ServerName(sc.Server), time.Unix(0, sc.Now), keys)
+		return args, B(c12ChecksText(ch, ks))
+	})
+	RegisterImpl("C12.direct_fetch", func(args [][]byte) ([][]byte, []byte) {
+		var sc c12FetchScenario
+		if err := json.Unmarshal(args[0], &sc); err != nil {
+			return args, B("badconfig")
+		}
+		docs := c12UnmarshalDocs(args[1:])
+		cl := &c12Client{mu: make(chan struct{}, 1), get: map[string]*gmsl.ServerKeys{}, lookup: map[string][]gmsl.ServerKeys{}, lookupE: map[string]bool{}}
+		for s, ix := range sc.Get {
+			if ix != nil && *ix < len(docs) {
+				d := docs[*ix]
+				cl.get[s] = &d
+			}
+		}
+		var look map[string]*[]int
+		_ = json.Unmarshal(sc.Lookup, &look)
+		for s, ixs := range look {
+			if ixs != nil {
+				cl.lookupE[s] = true
+				for _, ix := range *ixs {
+					cl.lookup[s] = append(cl.lookup[s], docs[ix])
+				}
+			}
+		}
+		local := map[string]bool{}
+		for _, l := range sc.Local {
+			local[l] = true
+		}
+		lk, _ := hex.DecodeString(sc.LocalKey)
+		f := &gmsl.DirectKeyFetcher{Client: cl, IsLocalServerName: func(s spec.ServerName) bool { return local[string(s)] }, LocalPublicKey: lk}
+		final := append([][]byte{}, args...)
+		final[0] = c12Stamp(args[0], time.Now())
+		res, err := f.FetchKeys(context.Background(), c12ParseAsked(sc.Asked))
+		if err != nil {
+			return final, B("E")
+		}
+		sort.Strings(cl.gets)
+		sort.Strings(cl.looks)
+		out := fmt.Sprintf("G=%s;L=%s;%s", strings.Join(cl.gets, ","), strings.Join(cl.looks, ","), c12StoredJSON(res))
+		if cl.badReq {
+			out = "BADREQ " + out
+		}
+		return final, B(out)
+	})
+	RegisterImpl("C12.perspective_fetch", func(args [][]byte) ([][]byte, []byte) {
+		var sc c12FetchScenario
+		if err := json.Unmarshal(args[0], &sc); err != nil {
+			return args, B("badconfig")
+		}
+		docs := c12UnmarshalDocs(args[1:])
+		cl := &c12Client{mu: make(chan struct{}, 1), lookup: map[string][]gmsl.ServerKeys{}, lookupE: map[string]bool{}}
+		var ixs *[]int
+		_ = json.Unmarshal(sc.Lookup, &ixs)
+		if ixs != nil {
+			cl.lookupE[sc.PName] = true
+			for _, ix := range *ixs {
+				cl.lookup[sc.PName] = append(cl.lookup[sc.PName], docs[ix])
+			}
+		}
+		pk := map[gmsl.KeyID]ed25519.PublicKey{}
+		for _, row := range sc.PKeys {
+			raw, _ := hex.DecodeString(row[1])
+			pk[gmsl.KeyID(row[0])] = ed25519.PublicKey(raw)
+		}
+		f := &gmsl.PerspectiveKeyFetcher{PerspectiveServerName: spec.ServerName(sc.PName), PerspectiveServerKeys: pk, Client: &c12PerspectiveClient{cl}}
+		res, err := f.FetchKeys(context.Background(), c12ParseAsked(sc.Asked))
+		out := "A=" + cl.asked + ";"
+		if err != nil {
+			return args, B(out + "E")
+		}
+		return args, B(out + c12StoredJSON(res))
+	})
+}
+
+// the perspective fetcher hands the whole request map to LookupServerKeys
+type c12PerspectiveClient struct{ c *c12Client }
+
+func (p *c12PerspectiveClient) GetServerKeys(ctx context.Context, s spec.ServerName) (gmsl.ServerKeys, error) {
+	return p.c.GetServerKeys(ctx, s)
+}
+func (p *c12PerspectiveClient) LookupServerKeys(_ context.Context, s spec.ServerName, reqs map[gmsl.PublicKeyLookupRequest]spec.Timestamp) ([]gmsl.ServerKeys, error) {
+	p.c.asked = c12AskedJSON(reqs)
+	if p.c.lookupE[string(s)] {
+		return p.c.lookup[string(s)], nil
+	}
+	return nil, errors.New("scripted failure")
+}
+
+// ---------- generators ----------
+func c12Pub(i int) []byte { return []byte(c12Keys[i].pub) }
+
+// a well-formed self-signed document for server with one current key (key pair ki under kid)
+func c12GoodDoc(server, kid string, ki int, vu uint64) c12DocSpec {
+	return c12DocSpec{Server: server, VU: vu, Verify: []c12VerifyKeySpec{{Kid: kid, Key: c12Pub(ki), SignIdx: ki}}}
+}
+
+func (g *c12Gen) checkKeys() {
+	c := g.c
+	T := uint64(1700000000000)
+	type variant struct {
+		name string
+		mk   func(d *c12DocSpec)
+	}
+	keyVariants := []variant{
+		{"one good", func(d *c12DocSpec) {}},
+		{"two good", func(d *c12DocSpec) {
+			d.Verify = append(d.Verify, c12VerifyKeySpec{Kid: "ed25519:b", Key: c12Pub(1), SignIdx: 1})
+		}},
+		{"good + tampered", func(d *c12DocSpec) {
+			d.Verify = append(d.Verify, c12VerifyKeySpec{Kid: "ed25519:b", Key: c12Pub(1), SignIdx: 1, Tamper: true})
+		}},
+		{"tampered + good", func(d *c12DocSpec) {
+			d.Verify = []c12VerifyKeySpec{{Kid: "ed25519:a", Key: c12Pub(0), SignIdx: 0, Tamper: true}, {Kid: "ed25519:b", Key: c12Pub(1), SignIdx: 1}}
+		}},
+		{"good + unsigned", func(d *c12DocSpec) {
+			d.Verify = append(d.Verify, c12VerifyKeySpec{Kid: "ed25519:b", Key: c12Pub(1), SignIdx: -1})
+		}},
+		{"unsigned", func(d *c12DocSpec) { d.Verify[0].SignIdx = -1 }},
+		{"signed by another key", func(d *c12DocSpec) { d.Verify[0].SignIdx = 1 }},
+		{"signed under another server name", func(d *c12DocSpec) { d.Verify[0].SignName = "srvB" }},
+		{"key of 31 bytes", func(d *c12DocSpec) { d.Verify[0].Key = c12Pub(0)[:31] }},
+		{"key of 33 bytes", func(d *c12DocSpec) { d.Verify[0].Key = append(c12Pub(0), 7) }},
+		{"empty key", func(d *c12DocSpec) { d.Verify[0].Key = nil }},
+		{"good + short key", func(d *c12DocSpec) {
+			d.Verify = append(d.Verify, c12VerifyKeySpec{Kid: "ed25519:b", Key: c12Pub(1)[:16], SignIdx: 1})
+		}},
+		{"rsa only", func(d *c12DocSpec) { d.Verify[0].Kid = "rsa:1" }},
+		{"rsa + good", func(d *c12DocSpec) {
+			d.Verify = append(d.Verify, c12VerifyKeySpec{Kid: "rsa:1", Key: []byte("whatever"), SignIdx: -1})
+		}},
+		{"no keys", func(d *c12DocSpec) { d.Verify = nil }},
+		{"kid without colon", func(d *c12DocSpec) { d.Verify[0].Kid = "ed25519" }},
+		{"kid with empty suffix", func(d *c12DocSpec) { d.Verify[0].Kid = "ed25519:" }},
+		{"kid with two colons", func(d *c12DocSpec) { d.Verify[0].Kid = "ed25519:a:b" }},
+		{"near-miss algorithm", func(d *c12DocSpec) { d.Verify[0].Kid = "ed25519x:a" }},
+		{"upper-case algorithm", func(d *c12DocSpec) { d.Verify[0].Kid = "Ed25519:a" }},
+		{"old keys", func(d *c12DocSpec) {
+			d.Old = []c12OldKeySpec{{"ed25519:old", c12Pub(2), T - 5}, {"ed25519:a", c12Pub(3), T - 9}}
+		}},
+		{"poisoned signatures", func(d *c12DocSpec) { d.Poison = true }},
+	}
+	type clock struct {
+		name string
+		vu   uint64
+		now  int64
+	}
+	ms := int64(1000000)
+	clocks := []clock{
+		{"epoch", T, 0}, {"vu-1ms", T, int64(T-1) * ms}, {"vu", T, int64(T) * ms}, {"vu+1ms", T, int64(T+1) * ms},
+		{"vu-1ns", T, int64(T)*ms - 1}, {"vu+1ns", T, int64(T)*ms + 1},
+		{"vu=0 at epoch", 0, 0}, {"vu=1 at epoch", 1, 0}, {"vu=1 at 1ms", 1, ms}, {"vu=1 just before", 1, ms - 1},
+		{"vu=2^63", 1 << 63, 0}, {"vu=2^63-1", 1<<63 - 1, 0}, {"vu=2^64-1", 1<<64 - 1, 0}, {"vu=2^64-1 before epoch", 1<<64 - 1, -2 * ms},
+		{"vu=0 before epoch", 0, -1},
+	}
+	emit := func(server string, spec c12DocSpec, now int64, desc string) {
+		doc, err := c12BuildDoc(spec)
+		if err != nil {
+			c.Count("check_keys/unmarshal-error")
+			return
+		}
+		fields, sig := c12DocsJSON([]*c12Doc{doc})
+		cfg := fmt.Sprintf(`{"now":%d,"server":"%s","docs":%s,"sig":%s}`, now, server, fields, sig)
+		c.Run("C12.check_keys", [][]byte{B(cfg), doc.Raw}, "C12.check_keys", "C12.prop.check_keys", desc)
+		c.Count("check_keys")
+	}
+	for _, kv := range keyVariants {
+		for _, cl := range clocks {
+			for _, server := range []string{"srvA", "srvB"} {
+				d := c12GoodDoc("srvA", "ed25519:a", 0, cl.vu)
+				kv.mk(&d)
+				emit(server, d, cl.now, "check_keys "+kv.name+" / "+cl.name+" / asked "+server)
+			}
+		}
+	}
+	n := c.Scale(200, 4000)
+	for i := 0; i < n; i++ {
+		d := c12GoodDoc("srvA", "ed25519:a", 0, T)
+		for j := c.Rng.Intn(3); j > 0; j-- {
+			keyVariants[c.Rng.Intn(len(keyVariants))].mk(&d)
+			if len(d.Verify) == 0 {
+				break
+			}
+		}
+		cl := clocks[c.Rng.Intn(len(clocks))]
+		d.VU = cl.vu
+		emit(c12Servers[c.Rng.Intn(2)], d, cl.now, "check_keys random")
+	}
+}
+
+// documents the fetcher generators draw from, by class
+func (g *c12Gen) fetchDoc(server string, class int) c12DocSpec {
+	now := g.nowMs()
+	d := c12GoodDoc(server, "ed25519:a", 0, now+c12Day)
+	switch class {
+	case 0: // good, one key
+	case 1: // good, two keys and old keys
+		d.Verify = append(d.Verify, c12VerifyKeySpec{Kid: "ed25519:b", Key: c12Pub(1), SignIdx: 1})
+		d.Old = []c12OldKeySpec{{"ed25519:old", c12Pub(2), now - c12Day}, {"ed25519:b", c12Pub(3), now - 2*c12Day}}
+	case 2: // valid_until_ts long past but positive: passes the fetchers' check against the epoch
+		d.VU = 5
+	case 3: // valid_until_ts = 0
+		d.VU = 0
+	case 4: // bad self-signature
+		d.Verify[0].Tamper = true
+	case 5: // no ed25519 key
+		d.Verify[0].Kid = "rsa:1"
+	case 6: // one good key, one unsigned key
+		d.Verify = append(d.Verify, c12VerifyKeySpec{Kid: "ed25519:b", Key: c12Pub(1), SignIdx: -1})
+	case 7: // another key pair under the same id
+		d.Verify[0] = c12VerifyKeySpec{Kid: "ed25519:a", Key: c12Pub(2), SignIdx: 2}
+	case 8: // valid_until_ts above int64
+		d.VU = 1 << 63
+	case 9: // non-ed25519 key next to a good one (passed through unchecked)
+		d.Verify = append(d.Verify, c12VerifyKeySpec{Kid: "rsa:1", Key: []byte("rsakey"), SignIdx: -1})
+	}
+	return d
+}
+
+const c12DocClasses = 10
+
+func (g *c12Gen) directFetch() {
+	c := g.c
+	rng := c.Rng
+	n := c.Scale(500, 8000)
+	servers := []string{"srvA", "srvB", "srvC", "srvL"}
+	for i := 0; i < n; i++ {
+		var docs []*c12Doc
+		addDoc := func(d c12DocSpec) int {
+			doc, err := c12BuildDoc(d)
+			if err != nil {
+				panic(err)
+			}
+			docs = append(docs, doc)
+			return len(docs) - 1
+		}
+		pickClass := func() int {
+			if rng.Intn(2) == 0 {
+				return rng.Intn(2)
+			}
+			return rng.Intn(c12DocClasses)
+		}
+		var asked []string
+		seen := map[string]bool{}
+		for j := 1 + rng.Intn(5); j > 0; j-- {
+			s := servers[rng.Intn(len(servers))]
+			k := c12Kids[rng.Intn(3)]
+			if seen[s+"/"+k] {
+				continue
+			}
+			seen[s+"/"+k] = true
+			asked = append(asked, fmt.Sprintf(`["%s","%s",%d]`, s, k, g.nowMs()-uint64(rng.Intn(100))))
+		}
+		if rng.Intn(20) == 0 {
+			asked = nil
+		}
+		var get, lookup []string
+		for _, s := range servers[:3] {
+			switch rng.Intn(6) {
+			case 0:
+				get = append(get, fmt.Sprintf(`"%s":null`, s))
+			case 1: // a document of another server
+				get = append(get, fmt.Sprintf(`"%s":%d`, s, addDoc(g.fetchDoc(servers[rng.Intn(3)], pickClass()))))
+			default:
+				get = append(get, fmt.Sprintf(`"%s":%d`, s, addDoc(g.fetchDoc(s, pickClass()))))
+			}
+			switch rng.Intn(6) {
+			case 0:
+				lookup = append(lookup, fmt.Sprintf(`"%s":null`, s))
+			case 1:
+				lookup = append(lookup, fmt.Sprintf(`"%s":[]`, s))
+			default:
+				var ix []string
+				for k := 1 + rng.Intn(3); k > 0; k-- {
+					srv := s
+					if rng.Intn(3) == 0 {
+						srv = servers[rng.Intn(3)]
+					}
+					ix = append(ix, strconv.Itoa(addDoc(g.fetchDoc(srv, pickClass()))))
+				}
+				lookup = append(lookup, fmt.Sprintf(`"%s":[%s]`, s, strings.Join(ix, ",")))
+			}
+		}
+		fields, sig := c12DocsJSON(docs)
+		cfg := fmt.Sprintf(`{"now":0,"local":["srvL"],"localkey":"%s","asked":[%s],"get":{%s},"lookup":{%s},"docs":%s,"sig":%s}`,
+			c12Keys[4].hex, strings.Join(asked, ","), strings.Join(get, ","), strings.Join(lookup, ","), fields, sig)
+		args := [][]byte{B(cfg)}
+		for _, d := range docs {
+			args = append(args, d.Raw)
+		}
+		out := c.Run("C12.direct_fetch", args, "C12.direct_fetch", "", "direct fetch")
+		c.Count("direct_fetch")
+		if strings.Contains(string(out), ";L=;") {
+			c.Count("direct_fetch/no-notary-fallback")
+		} else {
+			c.Count("direct_fetch/notary-fallback")
+		}
+	}
+}
+
+func (g *c12Gen) perspectiveFetch() {
+	c := g.c
+	rng := c.Rng
+	n := c.Scale(500, 8000)
+	for i := 0; i < n; i++ {
+		var docs []*c12Doc
+		var ix []string
+		nd := rng.Intn(4)
+		for j := 0; j < nd; j++ {
+			cls := 0
+			if rng.Intn(3) == 0 {
+				cls = rng.Intn(c12DocClasses)
+			} else {
+				cls = rng.Intn(2)
+			}
+			d := g.fetchDoc(c12Servers[rng.Intn(3)], cls)
+			// notary signatures: known ids are "ed25519:n1" (key 3) and, sometimes, "ed25519:n2" (key 4)
+			switch rng.Intn(10) {
+			case 0: // none
+			case 1: // only under an id we hold no key for
+				d.Notary = []c12NotarySig{{"notary", "ed25519:zz", 3, false}}
+			case 2: // known id, tampered
+				d.Notary = []c12NotarySig{{"notary", "ed25519:n1", 3, true}}
+			case 3: // known id, signed with another key
+				d.Notary = []c12NotarySig{{"notary", "ed25519:n1", 2, false}}
+			case 4: // signed by somebody else under the known id
+				d.Notary = []c12NotarySig{{"other", "ed25519:n1", 3, false}}
+			case 5: // unknown id plus known id
+				d.Notary = []c12NotarySig{{"notary", "ed25519:zz", 2, true}, {"notary", "ed25519:n1", 3, false}}
+			case 6: // both known ids, both fine
+				d.Notary = []c12NotarySig{{"notary", "ed25519:n1", 3, false}, {"notary", "ed25519:n2", 4, false}}
+			default:
+				d.Notary = []c12NotarySig{{"notary", "ed25519:n1", 3, false}}
+			}
+			if rng.Intn(25) == 0 {
+				d.Poison = true
+			}
+			doc, err := c12BuildDoc(d)
+			if err != nil {
+				panic(err)
+			}
+			docs = append(docs, doc)
+			ix = append(ix, strconv.Itoa(j))
+		}
+		lookup := "[" + strings.Join(ix, ",") + "]"
+		if rng.Intn(12) == 0 {
+			lookup = "null"
+		}
+		pkeys := fmt.Sprintf(`["ed25519:n1","%s"]`, c12Keys[3].hex)
+		if rng.Intn(2) == 0 {
+			pkeys += fmt.Sprintf(`,["ed25519:n2","%s"]`, c12Keys[4].hex)
+		}
+		var asked []string
+		seen := map[string]bool{}
+		for j := rng.Intn(4); j > 0; j-- {
+			s, k := c12Servers[rng.Intn(3)], c12Kids[rng.Intn(3)]
+			if !seen[s+k] {
+				seen[s+k] = true
+				asked = append(asked, fmt.Sprintf(`["%s","%s",%d]`, s, k, g.nowMs()-uint64(rng.Intn(100))))
+			}
+		}
+		fields, sig := c12DocsJSON(docs)
+		cfg := fmt.Sprintf(`{"pname":"notary","pkeys":[%s],"asked":[%s],"lookup":%s,"docs":%s,"sig":%s}`, pkeys, strings.Join(asked, ","), lookup, fields, sig)
+		args := [][]byte{B(cfg)}
+		for _, d := range docs {
+			args = append(args, d.Raw)
+		}
+		out := c.Run("C12.perspective_fetch", args, "C12.perspective_fetch", "", "perspective fetch")
+		c.Count("perspective_fetch")
+		if strings.HasSuffix(string(out), ";E") {
+			c.Count("perspective_fetch/error")
+		} else {
+			c.Count("perspective_fetch/answer")
+		}
+	}
 }
